@@ -35,6 +35,21 @@ def run(v, tier):
         else:
             l, r = rng.choice(pool), rng.choice(pool)
         add({'fn': 'modus_ponens', 'l': l, 'r': r}, {'rule': 'mp', 'l': l, 'r': r})
+    # modus ponens near misses under notation: the antecedent and the premise are applications of the SAME definition that
+    # differ in their key sets / the holes their arguments sit in / one argument (only the same mapping is applicable)
+    small = u['U1'][:40]
+    for _ in range(150 if quick else 1500):
+        a, b, c = rng.choice(small), rng.choice(small), rng.choice(pool)
+        dfn = rng.choice([N['and'](a, b)['p'], N['or'](a, b)['p'], N['equiv'](a, b)['p']])
+        ante = pi2v.NINST(dfn, [(0, a), (1, b)])
+        for r in (pi2v.NINST(dfn, [(1, b), (0, a)]),              # same mapping, other key order: applicable
+                  pi2v.NINST(dfn, [(0, a)]), pi2v.NINST(dfn, [(1, b)]), pi2v.NINST(dfn, []),      # partial applications
+                  pi2v.NINST(dfn, [(1, a), (0, b)]),              # arguments in the other holes
+                  pi2v.NINST(dfn, [(0, a), (1, rng.choice(small))]), pi2v.NINST(dfn, [(0, a), (1, b), (2, c)])):
+            l = pi2v.IMP(ante, c)
+            add({'fn': 'modus_ponens', 'l': l, 'r': r}, {'rule': 'mp', 'l': l, 'r': r})
+            l2 = pi2v.IMP(r, c)                                   # and the other way round
+            add({'fn': 'modus_ponens', 'l': l2, 'r': ante}, {'rule': 'mp', 'l': l2, 'r': ante})
     for p in rng.sample(pool + imps, min(len(pool), n)) + imps[:200]:   # generalization
         for x in (0, 1):
             add({'fn': 'exists_generalization', 'p': p, 'x': x}, {'rule': 'gen', 'p': p, 'x': x})
